@@ -208,7 +208,11 @@ def _prep_specdir(ctx, tag):
     return d
 
 
+TIMEOUT_SCALE = float(os.environ.get("VERIF_TIMEOUT_SCALE", "1"))
+
+
 def _run_tlc(ctx, tag, module, cfg, workers, timeout, extra, env=None, java_opts=None):
+    timeout = timeout * TIMEOUT_SCALE
     d = _prep_specdir(ctx, tag)
     meta = os.path.join(d, "_meta")
     cmd = _tlc_cmd(module, cfg, meta, workers, extra)
